@@ -52,6 +52,10 @@ pub enum Fault {
     /// second threaded pipe B is created before (order 1) or after (order 0, 2) it and dropped
     /// (order 0, 1) or kept alive (order 2) before A's processing function panics on the first item >= j
     FnPanicTwoPipes { j: usize, order: u8 },
+    /// the processing function hands item j to a helper thread, the helper panics and the
+    /// worker re-raises the panic with resume_unwind (what rayon's par_iter or a scoped join does):
+    /// the hook runs on the helper thread only
+    HelperThreadPanic { j: usize },
 }
 
 #[derive(Serialize, Deserialize, Clone, Debug)]
@@ -174,6 +178,13 @@ pub fn grid() -> Vec<(Shape, u8, Option<usize>, Fault)> {
             }
         }
     }
+    // ---- the panic is raised on a helper thread of the processing function
+    for j in [0usize, 3, 8] {
+        for w in 1..=3u8 {
+            g.push((Shape::Pipe, w, None, Fault::HelperThreadPanic { j }));
+            g.push((Shape::PipeBuffered(1), w, Some(40), Fault::HelperThreadPanic { j }));
+        }
+    }
     // ---- a second pipe in the same process, created and dropped around the observed one
     for j in [0usize, 4] {
         for order in 0..3u8 {
@@ -275,6 +286,7 @@ impl Scenario for C09 {
             Fault::FnPanic { j, stall } | Fault::SrcPanic { j, stall } => j as u64 + (stall > 0) as u64,
             Fault::FnPanicAfterTrainBpe { j } => j as u64 + 3,
             Fault::FnPanicTwoPipes { j, order } => j as u64 + 3 + order as u64,
+            Fault::HelperThreadPanic { j } => j as u64 + 2,
         };
         f + self.w as u64
             + match self.shape {
@@ -312,6 +324,11 @@ impl Scenario for C09 {
             Fault::FnPanicTwoPipes { j, order } => {
                 if j > 0 {
                     push(&|c| c.fault = Fault::FnPanicTwoPipes { j: j - 1, order });
+                }
+            }
+            Fault::HelperThreadPanic { j } => {
+                if j > 0 {
+                    push(&|c| c.fault = Fault::HelperThreadPanic { j: j - 1 });
                 }
             }
             Fault::FnPanic { j, stall } => {
@@ -373,6 +390,7 @@ impl Scenario for C09 {
             Fault::FnPanic { .. } => "fn-panic",
             Fault::FnPanicAfterTrainBpe { .. } => "fn-panic-after-train_bpe",
             Fault::FnPanicTwoPipes { .. } => "fn-panic-with-second-pipe",
+            Fault::HelperThreadPanic { .. } => "panic-on-helper-thread",
             Fault::SrcPanic { .. } => "src-panic",
         };
         format!("{}/{}/{}", v.class, shape, fault)
@@ -418,6 +436,10 @@ impl Scenario for C09 {
                 Fault::FnPanic { j, .. } => Some(j as u64),
                 _ => None,
             };
+            let helper_panic_at = match sc.fault {
+                Fault::HelperThreadPanic { j } => Some(j as u64),
+                _ => None,
+            };
             let armed = Arc::new(std::sync::atomic::AtomicBool::new(false));
             let armed2 = armed.clone();
             let late_panic_from = match sc.fault {
@@ -447,6 +469,15 @@ impl Scenario for C09 {
                     rt::log(Kind::Fault, 2, x);
                     panic!("injected: processing function fails on item {x}");
                 }
+                if Some(x) == helper_panic_at {
+                    rt::log(Kind::Fault, 8, x);
+                    let h = verif_rt::shim::std::thread::spawn(move || {
+                        panic!("injected: helper thread of the processing function fails on item {x}");
+                    });
+                    if let Err(p) = h.join() {
+                        std::panic::resume_unwind(p);
+                    }
+                }
                 if let Some(from) = late_panic_from {
                     if x >= from && armed2.load(std::sync::atomic::Ordering::SeqCst) {
                         rt::log(Kind::Fault, 5, x);
@@ -457,7 +488,7 @@ impl Scenario for C09 {
                 f_val(x)
             });
             let src = PanickingSrc {
-                inner: Src { next: 0, n: sc.n.unwrap_or(usize::MAX), delay: Arc::new(vec![]), hinted: sc.hinted },
+                inner: Src { next: 0, n: sc.n.unwrap_or(usize::MAX), delay: Arc::new(vec![]), hinted: sc.hinted, gate: None },
                 panic_at: src_panic_at,
             };
             let fm = f.clone();
@@ -594,6 +625,16 @@ impl Scenario for C09 {
                     let res = text_utils::tokenization::train_bpe(&[bpe_in.clone()], 320, 60, &bpe_out, None, None, 1, false);
                     rt::log(Kind::Note, 1, res.is_ok() as u64);
                     armed.store(true, std::sync::atomic::Ordering::SeqCst);
+                    let mut got = 0usize;
+                    while let Some(v) = it.next() {
+                        rt::log(Kind::Recv, got as u64, v);
+                        got += 1;
+                    }
+                    rt::log(Kind::RecvEnd, got as u64, 0);
+                    drop(it);
+                    rt::wait_threads_exit();
+                }
+                Fault::HelperThreadPanic { .. } => {
                     let mut got = 0usize;
                     while let Some(v) = it.next() {
                         rt::log(Kind::Recv, got as u64, v);
@@ -771,8 +812,12 @@ impl C09 {
             Fault::FnPanic { j, .. }
             | Fault::SrcPanic { j, .. }
             | Fault::FnPanicAfterTrainBpe { j }
-            | Fault::FnPanicTwoPipes { j, .. } => {
+            | Fault::FnPanicTwoPipes { j, .. }
+            | Fault::HelperThreadPanic { j } => {
                 let is_src = matches!(self.fault, Fault::SrcPanic { .. });
+                if matches!(self.fault, Fault::HelperThreadPanic { .. }) {
+                    stats.fault("panic_raised_on_a_helper_thread_and_re-raised_in_the_worker");
+                }
                 if matches!(self.fault, Fault::FnPanicTwoPipes { .. }) {
                     stats.fault("second_pipe_in_the_same_process");
                 }
